@@ -446,3 +446,70 @@ Example write_transaction :
   r2 = RetData [7; 8; 9] /\ v_state s3 = R_IDLE /\ v_sa s3 = None /\ v_addr s3 = None /\ a_state s3 = D_IDLE /\ subs s3 = [CB_LISTEN] /\
   o1 = [SProceedFn 2 4096 1 8 3 65535 249 65535 0; SNotify].
 Proof. vm_compute. repeat split; reflexivity. Qed.
+
+(* ---------------------------------------------------------------- C19, second mechanism: the node is itself querying *)
+Lemma zlen_set_nth l i x : zlen (set_nth l i x) = zlen l.
+Proof. unfold zlen. rewrite set_nth_length. reflexivity. Qed.
+
+Lemma py_put_ok l i x : 0 <= i < zlen l -> exists l', py_put l i x = Some l' /\ zlen l' = zlen l.
+Proof.
+  intros H. unfold py_put, norm_idx. destruct (i <? 0) eqn:A; [lia|].
+  assert (((i <? 0) || (i >=? zlen l)) = false) as -> by lia.
+  eexists. split; [reflexivity|apply zlen_set_nth].
+Qed.
+
+Lemma zlen_repeat x n : 0 <= n -> zlen (repeat x (Z.to_nat n)) = n.
+Proof. intros H. unfold zlen. rewrite repeat_length. lia. Qed.
+
+(* with a request length of at least 6 the 'operation failed' DM15 is always sent: one frame, nothing changed *)
+Lemma send_error_sends s length direct d0 x er :
+  6 <= length ->
+  exists d, send_dm15 s length direct 5 R_SEND_ERROR (Some d0) (Some x) (Some er) (Some 7) = (s, [SSend 216 (Z.land x 255) 6 d], None).
+Proof.
+  intros Hl. unfold send_dm15, opt.
+  pose proof (zlen_repeat 255 length ltac:(lia)) as L0.
+  destruct (py_put_ok (repeat 255 (Z.to_nat length)) 1 (direct * 16 + 5 * 2 + 1) ltac:(lia)) as (d1 & E1 & L1). rewrite E1.
+  change (R_SEND_ERROR =? R_WAIT_FOR_KEY) with false. change (R_SEND_ERROR =? R_SEND_PROCEED) with false.
+  change (R_SEND_ERROR =? R_SEND_OPCOMPLETE) with false. change (R_SEND_ERROR =? R_SEND_ERROR) with true. cbv iota.
+  destruct (py_put_ok d1 0 0 ltac:(lia)) as (d2 & E2 & L2). rewrite E2.
+  destruct (py_put_ok d2 1 (direct * 16 + 5 * 2 + 1) ltac:(lia)) as (d3 & E3 & L3). rewrite E3.
+  destruct (py_put_ok d3 (length - 6) (Z.land er 255) ltac:(lia)) as (d4 & E4 & L4). rewrite E4.
+  destruct (py_put_ok d4 (length - 5) (Z.land (Z.shiftr er 8) 255) ltac:(lia)) as (d5 & E5 & L5). rewrite E5.
+  destruct (py_put_ok d5 (length - 4) (Z.shiftr er 16) ltac:(lia)) as (d6 & E6 & L6). rewrite E6.
+  destruct (py_put_ok d6 (length - 3) 7 ltac:(lia)) as (d7 & E7 & L7). rewrite E7.
+  exists d7. reflexivity.
+Qed.
+
+Lemma py_get_0 d0 rest : py_get (d0 :: rest) 0 = Some d0.
+Proof.
+  unfold py_get, norm_idx, zlen. cbn [length]. change (0 <? 0) with false. cbv iota.
+  assert (((0 <? 0) || (0 >=? Z.of_nat (S (length rest)))) = false) as -> by lia. reflexivity.
+Qed.
+Lemma py_get_1 d0 d1 rest : py_get (d0 :: d1 :: rest) 1 = Some d1.
+Proof.
+  unfold py_get, norm_idx, zlen. cbn [length]. change (1 <? 0) with false. cbv iota.
+  assert (((1 <? 0) || (1 >=? Z.of_nat (S (S (length rest))))) = false) as -> by lia. reflexivity.
+Qed.
+
+Lemma set_busy_twice s b : set_busy (set_busy s b) false = set_busy s false.
+Proof. destruct s; reflexivity. Qed.
+
+(* while the facade is WAIT_QUERY (the node's own read()/write() runs) ANY DM14 of at least 2 bytes — from anybody — is
+   answered with exactly one 'operation failed / busy' DM15 to its sender and changes nothing; nothing reaches the application *)
+Theorem querying_node_answers_busy c s x data :
+  a_state s = D_WAIT_QUERY -> v_busy s = false -> 6 <= v_length s -> (2 <= length data)%nat ->
+  exists d, listen_for_dm14 c s PGN_DM14 x data = (s, [SSend 216 (Z.land x 255) 6 d], None).
+Proof.
+  intros Ha Hb Hl Hd. unfold listen_for_dm14. change (negb (PGN_DM14 =? PGN_DM14)) with false. cbv iota.
+  rewrite Ha. change (D_WAIT_QUERY =? D_IDLE) with false. change (D_WAIT_QUERY =? D_REQUEST_STARTED) with false.
+  change (D_WAIT_QUERY =? D_WAIT_QUERY) with true. cbv iota.
+  unfold parse_dm14. change (negb (PGN_DM14 =? PGN_DM14)) with false. cbv iota.
+  assert (v_busy (set_busy s true) = true) as Hbt by (destruct s; reflexivity). rewrite Hbt. rewrite !orb_true_r.
+  destruct data as [|d0 [|d1 rest]]; cbn [length] in Hd; try lia.
+  unfold opt. rewrite (py_get_1 d0 d1 rest), (py_get_0 d0 (d1 :: rest)).
+  assert (Hl' : 6 <= v_length (set_busy s true)) by (destruct s; exact Hl).
+  destruct (send_error_sends (set_busy s true) (v_length (set_busy s true)) (Z.shiftr d1 4) d0 x
+              (if v_error (set_busy s true) =? 0 then 2 else v_error (set_busy s true)) Hl') as (d & E).
+  rewrite E. unfold bind, ok. cbn [app]. rewrite (set_busy_twice s true).
+  rewrite (set_busy_same s Hb). rewrite (set_busy_same s Hb). exists d. reflexivity.
+Qed.
